@@ -205,6 +205,17 @@ class SqlalchemyRender:
                 "-": "__neg__",
             }
             arg = self.to_expression(t.args[0])
+            if (
+                t.op == '-'
+                and isinstance(t.args[0], ast.Constant)
+                and isinstance(t.args[0].value, (int, float))
+                and not isinstance(t.args[0].value, bool)
+                and t.args[0].value < 0
+            ):
+                # -(-1): without the parentheses the two signs form a comment marker
+                if isinstance(arg, sa.sql.elements.Label):
+                    arg = arg.element
+                arg = sa.sql.elements.Grouping(arg)
 
             method = opmap[t.op.upper()]
             col = getattr(arg, method)()
